@@ -19,8 +19,8 @@ PI = math.pi
 # case-analysis thresholds of the kernels (DESIGN.md appendix C): every one is probed +-k ulp
 THRESH = {
     "exp": [-103.97, -87.34, 88.37, 88.72, 0.0, 0.3466, -0.3466, 709.78, -708.4, -745.1],
-    "exp2": [-126.0, -149.0, 127.0, 128.0, 0.5, -0.5, 1023.0, -1022.0, -1074.0],
-    "exp10": [-37.9, 38.23, -44.8, 0.15, -307.6, 308.25],
+    "exp2": [-126.0, -149.0, 127.0, 128.0, 0.5, -0.5, 1023.0, -1022.0, -1074.0, -1023.0, -1023.5, -126.5, -127.0],
+    "exp10": [-37.9, 38.23, -44.8, 0.15, -307.6, 308.25, -307.6526555685888, -308.2547155599167, -308.1, -308.2],
     "expm1": [-17.3, 88.37, -0.35, 0.35, 1e-5, -1e-5, 709.78, -37.4],
     "log": [1.0, 0.70710678, 1.41421356, 1.17549435e-38, 2.0, 0.5],
     "log2": [1.0, 0.70710678, 1.41421356, 2.0, 0.5, 1.17549435e-38],
@@ -71,6 +71,14 @@ def points_unary(ctx, fn, bits, nsamp, kulp):
         b = fpgen.f2b(T, bits)
         for d in range(-kulp, kulp + 1):
             pts.append((b + d) & ((1 << bits) - 1))
+    # the zone between the smallest normal result and the flush to zero: graceful degradation, never inf / NaN / a wrong sign
+    # (finding exp10-denormal-zone: exp10(-308.2) was -inf)
+    zone = {"exp": ((-104.0, -87.3), (-745.2, -708.3)), "exp2": ((-150.0, -126.0), (-1075.0, -1022.0)), "exp10": ((-45.2, -37.9), (-323.4, -307.6)),
+            "expm1": None}.get(fn)
+    if zone:
+        z0, z1 = zone[fi]
+        for j in range(ctx.q(48, 400)):
+            pts.append(fpgen.f2b(z0 + (z1 - z0) * (j + rng.random()) / ctx.q(48, 400), bits))
     # binade boundaries inside the domain
     e0, e1 = math.floor(math.log2(lo)), math.floor(math.log2(hi))
     step = max(1, (e1 - e0) // ctx.q(24, 400))
